@@ -162,13 +162,27 @@ def generate(r, tier, prop):
                 # re-export of a base's function object in the subclass namespace
                 b = bases[0]
                 cands = [m for m in classes[b]["own"] if classes[b]["own"][m]["kind"] in ("method", "prop", "static") and m not in info["own"]]
-                if cands:
+                # ... or of a more distant ancestor, whose member a class in between has overridden (``f = Root.f`` below Mid.f)
+                far = [(x, m) for x in mro(b)[1:] for m in sorted(classes[x]["own"]) if classes[x]["own"][m]["kind"] in ("method", "static") and m not in info["own"]
+                       and not classes[x]["own"][m]["snaps"] and any(m in classes[y]["own"] for y in mro(b)[: mro(b).index(x)])]
+                if far and r.random() < 0.5:
+                    x, m = r.choice(far)
+                    al = {"name": m, "kind": "alias", "of": "%s.%s" % (x, m)}
+                    if classes[x]["own"][m]["kind"] == "static" or r.random() < 0.5:
+                        al["via"] = "attr"
+                    spec["methods"].append(al)
+                    if r.random() < 0.4:
+                        spec["pyname"] = x
+                elif cands:
                     m = r.choice(cands)
                     if not classes[b]["own"][m]["snaps"]:
                         al = {"name": m, "kind": "alias", "of": "%s.%s" % (b, m)}
                         if classes[b]["own"][m]["kind"] == "static" or r.random() < 0.5:
                             al["via"] = "attr"  # written as ``m = Base.m`` in the class body
                         spec["methods"].append(al)
+                        if r.random() < 0.4:
+                            # ... in a class which carries the very name of the base it re-exports from (class K(K): ...)
+                            spec["pyname"] = b
             if bases and r.random() < 0.15:
                 # re-export of a base's method under the name of ANOTHER member that the bases also provide
                 b = bases[0]
@@ -185,7 +199,7 @@ def generate(r, tier, prop):
                 if spec.get("builtin") and r.random() < 0.6:
                     inv["content"] = "le2"  # the invariant also looks at the content of the (list) object
                 spec["invs"].append(inv)
-            if classes and len(classes) > 1 and r.random() < 0.12:
+            if classes and len(classes) > 1 and "pyname" not in spec and r.random() < 0.12:
                 # a second, distinct class object with the Python name of an earlier one (class factory, re-executed class statement)
                 spec["pyname"] = r.choice(sorted(c for c in classes if c != name))
             steps.append({"op": "class", "spec": spec})
